@@ -1,0 +1,12 @@
+//go:build verif
+
+package schema
+
+// VerifRoots exposes the package's global registry to the external
+// verification harness (read-only use: fingerprinting shared state).
+// Only compiled with the "verif" build tag.
+func VerifRoots() map[string]any {
+	return map[string]any{
+		"schema.schemas": schemas,
+	}
+}
